@@ -23,7 +23,7 @@ Components are compared as whole strings; nothing here ever looks inside a compo
 -/
 import RefurbVerif.Model.Settings
 
-namespace RefurbVerif
+namespace RefurbVerif.Paths
 
 /-- a parsed `PurePosixPath`: is it anchored at "/" (or "//"), and its components -/
 structure PPath where
@@ -133,4 +133,4 @@ def ignoredViaAmend (R : Resolver) (s : Settings) (d : AmendDiag) : Option Bool 
   | none => none
   | some file => some (s.ignore.any (entryHits R (configRoot s.configFile) file d))
 
-end RefurbVerif
+end RefurbVerif.Paths
